@@ -10,6 +10,7 @@ RULE = (
     "At every wake-up step the transport log must equal: withheld replies (FIFO) then, in any order, one set per "
     "(child, value type) with a pending desired value whose type the node has reported; queue empty afterwards; "
     "a refused call changes nothing; a plainly valid call must be accepted; no wake-up or request may raise. "
+    "Flood phase: 257 / 300 (thorough: 1000, 4000) withheld items of all kinds between two wake-ups. "
     "Non-trivial = >= 2 withheld items at one wake-up, or a desired value re-sent at >= 2 wake-ups, or a set-value "
     "call on a sleeping node whose presented version differs from the gateway's."
 )
@@ -22,14 +23,74 @@ def nontrivial(case, sess):
 
 KINDS = ["node", "child", "child", "set", "set", "set", "set", "req", "req", "req", "time", "config", "wake", "wake", "wake", "wake", "otherwake", "battery"]
 
+def flood_phase(run, tier):
+    """How many replies wait for a sleeping node is not bounded by the statement: between two wake-ups the node (and
+    the controller) cause 257 / 300 / 1000 withheld items of all kinds; the wake-up must release every one, oldest
+    first, and a second wake-up must be silent."""
+    from vf import common
+
+    jobs = [(version, n, flavour) for version in ("2.0", "2.1", "2.2") for n in ((257, 300) if tier == "quick" else (257, 300, 1000, 4000)) for flavour in ("sync", "async")]
+    for stats in common.pool_map(_flood_worker, jobs):
+        run.stats.merge(stats)
+
+
+def flood_case(version, n, flavour):
+    from vf.ref import tables as T
+
+    wake = f"1;255;3;0;{T.wake_sub(version)};5"
+    ops = [{"op": "line", "text": t} for t in ("1;255;0;0;17;" + version, "1;0;0;0;6;temp", "1;1;0;0;3;dimmer", "1;0;1;0;0;20.5", "1;1;1;0;3;40", wake)]
+    kinds = ["1;0;2;0;0;", "1;1;2;0;3;", "1;255;3;0;6;0", "1;255;3;0;1;", "1;9;1;0;2;1"]  # value requests, config, time, unknown child
+    for i in range(n):
+        ops.append({"op": "line", "text": kinds[i % len(kinds)]})
+        if i % 50 == 7:
+            ops.append({"op": "line", "text": f"1;0;1;0;0;{i}"})  # the reported value moves on: later replies differ
+    ops += [{"op": "line", "text": wake}, {"op": "line", "text": wake}]
+    return {"version": version, "flavour": flavour, "ops": ops, "flood": n}
+
+
+def _flood_worker(args):
+    from vf import common, lockstep
+    from vf.common import Violation
+
+    version, n, flavour = args
+    common.setup_path()
+    stats = common.Stats()
+    case = flood_case(version, n, flavour)
+    try:
+        lockstep.run_history(case, {"wake", "sleep"}, stats)
+        stats.case(f"flood:{version}:{n}:{flavour}", {"version": version, "withheld_between_wake_ups": n, "flavour": flavour}, labels=("flood",))
+    except Violation as v:
+        stats.violation(v.clause, dict(case, ops=case["ops"][:8] + [{"op": "line", "text": "... (regenerate with vf.checks.c08.flood_case)"}], regenerate=[version, n, flavour]), v.detail[:600])
+    return stats
+
+
 CHECK = HistoryCheck(
     "C08", {"wake"}, RULE,
     dict(versions=("2.0", "2.1", "2.2"), max_ops=35, min_ops=6, frame_kinds=KINDS, wild_vt=True, op_weights=dict(set=24, fw=3, near=3, raw=1, save=4)),
-    nontrivial, quick=(16, 160), thorough=(16, 2500),
+    nontrivial, quick=(16, 160), thorough=(16, 2500), extra_phase=flood_phase,
     assumptions=[
         "reference model: hold queue FIFO, desired map keyed by (child, int value type), reported set per child",
         "order among the desired-value set commands of one burst is not pinned by the statement and not compared",
     ],
 )
 main = CHECK.main
-replay = CHECK.replay
+
+
+def replay(path):
+    import json
+
+    body = json.load(open(path, encoding="utf-8"))
+    if body.get("case", {}).get("regenerate"):
+        from vf import common, lockstep
+        from vf.common import Violation
+
+        common.setup_path()
+        try:
+            lockstep.run_history(flood_case(*body["case"]["regenerate"]), {"wake", "sleep"})
+        except Violation as v:
+            print(f"VIOLATION property=C08 replay={path}")
+            print(f"  clause={v.clause} detail={v.detail[:600]}")
+            return 1
+        print(f"C08 replay {path}: holds")
+        return 0
+    return CHECK.replay(path)
